@@ -1,7 +1,9 @@
 /-
 C12 — a check's verdict never depends on earlier, unrelated activity in the process.
 -/
+import JaxVerif.Model.Threads
 import JaxVerif.Spec.Calls
+import JaxVerif.Generated.Storage
 import JaxVerif.Generated.Skeleton
 import JaxVerif.Lemmas.Flags
 
@@ -35,6 +37,10 @@ theorem C12_pure_verdict (sk : Skel) (l : LType) (x : Obj) (st₁ st₂ : TState
 /-- the skeleton read from the current source releases both flags in a `finally` -/
 theorem C12_generated_good :
     Generated.flattenInFinally = some true ∧ Generated.treepathInFinally = some true := by decide
+
+/-- what survives a check, a call or a block is only what `_storage.py` holds per thread (shown above to be at rest
+    afterwards) and the construction-time caches listed here; nothing else in the package is process-wide and mutable -/
+theorem C12_no_other_state : Generated.processGlobalState = knownGlobalState := by decide
 
 /-- each fact matters: a custom flattener that raises with the release outside `finally` leaves
     flatten mode on; a leaf check that raises (here: AnnotationError from an unbound symbolic name) with the clear
